@@ -124,7 +124,7 @@ class Nodes:
         elif valform == YAMLValueFormats.FLOAT:
             try:
                 new_value = float(value)
-            except ValueError as wrap_ex:
+            except (TypeError, ValueError) as wrap_ex:
                 raise ValueError(
                     ("The requested value format is {}, but '{}' cannot be"
                     + " cast to a floating-point number.")
@@ -140,7 +140,7 @@ class Nodes:
 
             try:
                 new_value = int(value)
-            except ValueError as wrap_ex:
+            except (TypeError, ValueError) as wrap_ex:
                 raise ValueError(
                     ("The requested value format is {}, but '{}' cannot be"
                     + " cast to an integer number.")
